@@ -8,7 +8,7 @@ import ast
 
 from .core import Unsupported, find_def
 from .driver_py import dotted
-from .lazy import Inliner
+from .lazy import Inliner, normalise, return_paths
 
 OUTPUTS = ["GenAccessors.v"]
 DEME, TREE = "pyhms/demes/abstract_deme.py", "pyhms/tree.py"
@@ -122,12 +122,21 @@ DEME_PROPS = {"history": "gens", "all_individuals": "inds", "current_population"
 
 
 def prop_body(mod, cls, name, src):
-    """the value a property returns, with its local temporaries inlined (hv/translate/lazy.py)"""
-    fn = find_def(mod, name, cls)
-    body = [s for s in fn.body if not (isinstance(s, ast.Expr) and isinstance(s.value, ast.Constant))]
-    if not body or not isinstance(body[-1], ast.Return) or body[-1].value is None or any(isinstance(n, ast.Return) for s in body[:-1] for n in ast.walk(s)):
-        raise Unsupported(f"{src}:{fn.lineno}: {cls}.{name} is not straight-line code ending in one return")
-    return Inliner(fn, src).inline(body[-1].value, body[-1])
+    """the value a property returns, after shape normalisation, with its local temporaries inlined (hv/translate/lazy.py); several guarded
+    returns become one conditional expression"""
+    fn = normalise(find_def(mod, name, cls))
+    paths = return_paths(fn, src)
+    if len(paths) == 1 and not paths[0][0]:
+        return paths[0][1]
+    # if c: return a ... return b   ->   a if c else b   (paths come in source order; the last one is the fall-through)
+    expr = paths[-1][1]
+    for conds, e in reversed(paths[:-1]):
+        if not conds or any(pol_ for _, pol_ in conds[:-1]):
+            raise Unsupported(f"{src}:{fn.lineno}: {cls}.{name}: returns nested under several tests")
+        t, pol = conds[-1]
+        test = t if pol else ast.UnaryOp(op=ast.Not(), operand=t)
+        expr = ast.IfExp(test=test, body=e, orelse=expr)
+    return ast.fix_missing_locations(expr)
 
 
 def translate(repo):
@@ -154,11 +163,24 @@ def translate(repo):
     code, ty = PTr(DEME, "deme", dict(known)).expr(e.args[0], {})
     if ty != "inds":
         raise Unsupported(f"{DEME}: AbstractDeme.centroid is computed from a value of type {ty}")
-    cfn = find_def(dmod, "compute_centroid")
-    cb = [s_ for s_ in cfn.body if not (isinstance(s_, ast.Expr) and isinstance(s_.value, ast.Constant))]
+    from .lazy import canon
+    cfn = normalise(find_def(dmod, "compute_centroid"))
     pn = cfn.args.args[0].arg
-    if [ast.unparse(s_) for s_ in cb] != [f"if not {pn}:\n    return None", f"return np.mean([ind.genome for ind in {pn}], axis=0)"]:
-        raise Unsupported(f"{DEME}:{cfn.lineno}: compute_centroid is not `None for an empty population, else np.mean of the genomes (axis=0)`")
+    seen = {}
+    for conds, e_ in return_paths(cfn, DEME):
+        if len(conds) != 1:
+            raise Unsupported(f"{DEME}:{cfn.lineno}: compute_centroid: more than one test")
+        t_ = conds[0][0]
+        u_ = ast.unparse(t_)
+        if u_ in (f"not {pn}", f"len({pn}) == 0"):
+            empty = conds[0][1]
+        elif u_ in (pn, f"len({pn}) > 0", f"len({pn}) != 0"):
+            empty = not conds[0][1]
+        else:
+            raise Unsupported(f"{DEME}:{cfn.lineno}: compute_centroid: unsupported test {u_[:80]}")
+        seen[empty] = ast.unparse(canon(e_))
+    if seen != {True: "None", False: f"np.mean([_c0.genome for _c0 in {pn}], axis=0)"}:
+        raise Unsupported(f"{DEME}:{cfn.lineno}: compute_centroid is not `None for an empty population, else np.mean of the genomes (axis=0)`: {seen}")
     out.append("Definition gen_deme_centroid {M} (mean : list Z -> M) (mx : bool) (h : list (list (list Z))) : M :=\n"
                f"  mean {code}.   (* mean [] stands for None *)\n")
     fns += [f"{DEME}:AbstractDeme.centroid", f"{DEME}:compute_centroid"]
